@@ -187,8 +187,9 @@ def copy_ctor_coverage(run, rule, F):
                     detail=None if ok else ('no member initialiser' if not i else 'initialised from ' + ir.pp(i['e'])),
                     key='%s %s constructor does not copy member %s' % (short(rec.get('_tkey') or name), c['ctorkind'], f['n']))
             for b in rec['bases']:
-                if b.get('empty'):
-                    continue
+                if b.get('empty') and b['name'].startswith('ffsm2::'):
+                    continue      # an empty library base carries no state; a *user* base (the state class a wrapper derives from) is only
+                                  # accidentally empty in the witness and must be copied like any other
                 ok = any(_source_member(i['e'], pname) == '<whole>' for i in bases_inited if i.get('name') == b['name'])
                 n += 1
                 run.ob(rule, '%s %s constructor copies base %s from its argument' % (
